@@ -129,7 +129,11 @@ func zzC11_Validate_T3() { zzC11Validate("3;Tasks=3;After=2") }
 // RunPlan through the world: everything or nothing.
 func zzC11Run(spec string) {
 	g := zzC14Store("2;Results=0;RDeps=0;Tombstones=1;constkeys=Tasks,Meta,Deps")
+	for k := range g.Tombstones {
+		zzAssume(k == "AAAAAA")
+	}
 	root := zzWorldInit(g)
+	zzPinRand()
 	opts := zzCmdOpts(root)
 	p := zzPlanDoc(spec)
 	zzStdinPlan(p, zzBool("stdin.parseError"))
@@ -198,5 +202,5 @@ func zzC11Run(spec string) {
 	}
 }
 
-func zzC11_Run_T2() { zzC11Run("2;Tasks=2;After=1") }
+func zzC11_Run_T2()   { zzC11Run("2;Tasks=2;After=1") }
 func zzC11_Run_T2A2() { zzC11Run("2;Tasks=2;After=2") }
